@@ -202,7 +202,7 @@ def alternatives(TracerCore, shapes, name, call):
                         known.add(g)
                         guard_keys.append(g)
                         changed = True
-        if len(guard_keys) > 4:
+        if len(guard_keys) > 6:
             raise TraceError("%s: too many guard keys %s" % (name, guard_keys))
     alts = []
     seen = []
